@@ -10,7 +10,7 @@
 # `<ID>:miri:ub`; could not build / timed out ⇒ Miri part inconclusive, the run is not failed).
 #
 # Bounds: build phase ≤ MIRI_BUILD_TIMEOUT s (default 1500; a no-op when the Miri artefacts exist),
-# run phase ≤ MIRI_RUN_TIMEOUT s per process (default 220), MIRI_PROCS processes (default 8).
+# run phase ≤ MIRI_RUN_TIMEOUT s per process (default 230), MIRI_PROCS processes (default 6).
 # Environment: CARGO_TARGET_DIR (default /verif/harness/target), VERIF_SEED (base of the seeds),
 # LIBMON_MIRI_CASES (cases per test, default chosen per test).
 # Exit code: always 0 once the summary is written (2 on usage error).
@@ -25,8 +25,8 @@ HERE="$(cd "$(dirname "${BASH_SOURCE[0]}")" && pwd)"
 export CARGO_TARGET_DIR="${CARGO_TARGET_DIR:-$HERE/target}"
 export CARGO_NET_OFFLINE=true
 BUILD_TIMEOUT="${MIRI_BUILD_TIMEOUT:-1500}"
-RUN_TIMEOUT="${MIRI_RUN_TIMEOUT:-220}"
-PROCS="${MIRI_PROCS:-8}"
+RUN_TIMEOUT="${MIRI_RUN_TIMEOUT:-230}"
+PROCS="${MIRI_PROCS:-6}"
 BASE_SEED="${VERIF_SEED:-1}"
 FILTER="miri_$(echo "$ID" | tr 'A-Z' 'a-z')_"
 WORK="$(mktemp -d "${TMPDIR:-/tmp}/libmon-miri-$ID-XXXXXX")"
